@@ -639,7 +639,16 @@ pub fn hazard_program_ex(rng: &mut Rng, o: HazardOpts) -> (Vec<u8>, bool) {
             }
             38 => {
                 // output / input registers
-                if rng.bool() {
+                if o.irq.is_some() && rng.chance(1, 3) {
+                    // stores to the board ports and UART registers (nothing there is wired to the CPU's
+                    // interrupt logic: a latched key press must survive them)
+                    let a = *rng.pick(&[0xF0u8, 0xF1, 0xF2, 0xF3, 0xF3, 0xFA, 0xFB]);
+                    if rng.bool() {
+                        p.st_abs(a, rng.below(3) as u8);
+                    } else {
+                        p.mov(Dst::Abs(a), Src::Imm(rng.u8()));
+                    }
+                } else if rng.bool() {
                     p.st_abs(0xFE + rng.below(2) as u8, rng.below(3) as u8);
                 } else {
                     p.ld_abs(rng.below(3) as u8, 0xFC + rng.below(4) as u8);
